@@ -333,6 +333,10 @@ def layer_implicit(ctx, n):
                              ' i18n:attributes="%s%s"' % (attrs, explicit) if explicit is not None else '')
         for i, t in enumerate(texts):
             src += t + '<b/>'
+        expl = rng.choice([None, '', 'gid'])
+        if expl is not None:
+            # an element with an explicit i18n:translate under the implicit option: still ONE call for it
+            src += '<p i18n:translate="%s">Greet  <b i18n:name="n" tal:content="v"/> now</p>' % expl
         src += 'tail ${v}<i>${v}</i></div>'
         impl_t = rng.random() < .7
         impl_a = rng.choice([None, ['title'], ['alt', 'title']])
@@ -369,6 +373,9 @@ def layer_implicit(ctx, n):
             else:
                 out += t
             out += '<b/>'
+        if expl is not None:
+            want.append((expl or 'Greet ${n} now', 'Greet ${n} now', {'n': '<b>V</b>'}, None, None, None))
+            out += '<p>' + T(expl or 'Greet ${n} now', 'Greet ${n} now', {'n': '<b>V</b>'}) + '</p>'
         # a text node made of literal text and ${name} parts is sent as msgid with a mapping and no default;
         # a text node that is a single ${name} is not translated
         if impl_t:
@@ -379,7 +386,7 @@ def layer_implicit(ctx, n):
         out += '<i>V</i></div>'
         got = run_real(src, {'v': 'V', 'lang': None}, T, **cfg)
         ctx.mon('implicit-layer-compared')
-        ctx.case(key=('implicit', impl_t, tuple(impl_a or ()), attrs, aval, explicit, len(texts)), nontrivial=bool(want))
+        ctx.case(key=('implicit', impl_t, tuple(impl_a or ()), attrs, aval, explicit, expl, len(texts)), nontrivial=bool(want))
         if got != (out, want):
             ctx.violation('implicit-translation', 'template %r config %r\n  real  %r\n  model %r' % (src, cfg, got, (out, want)),
                           {'kind': 'implicit', 'src': src, 'cfg': repr(cfg)})
